@@ -116,8 +116,43 @@ def bounded_hof(tier, seed):
         ('let $mk := function($n) { function($k) { $n + $k } } return (let $a := $mk(1), $b := $mk(100) return ($a(1), $b(1), $a(2)))',
          [2, 101, 3]),
     ]
+    progs += [
+        # captured bindings win over the caller's bindings of the same name (lexical scoping)
+        ('let $x := 1, $f := function() { $x } return let $x := 2 return $f()', 1),
+        ('let $x := 1, $f := function() { $x } return for $x in (5, 6) return $f()', [1, 1]),
+        ('let $x := 1, $f := function($a) { $a + $x } return let $x := 100 return for-each((1, 2), $f)', [2, 3]),
+        ('let $x := 1, $f := function($a, $b) { $a + $b + $x } return let $x := 100 return fold-left((1, 2), 0, $f)', 5),
+        ('let $x := 1, $f := function() { $x }, $g := function($x) { $f() } return $g(7)', 1),
+        ('let $x := 1, $f := function() { $x }, $x := 2 return $f()', 1),
+        # sort with a collation and a key function
+        ("sort(('B', 'a', 'C'), 'http://www.w3.org/2005/xpath-functions/collation/html-ascii-case-insensitive', function($s) { $s })", ['a', 'B', 'C']),
+        ("sort(('b', 'B', 'a', 'A'), 'http://www.w3.org/2005/xpath-functions/collation/html-ascii-case-insensitive', function($s) { $s })", ['a', 'A', 'b', 'B']),
+        ("sort(('B', 'a', 'C'), 'http://www.w3.org/2005/xpath-functions/collation/html-ascii-case-insensitive')", ['a', 'B', 'C']),
+        ("sort(('B', 'a', 'C'), 'http://www.w3.org/2005/xpath-functions/collation/codepoint', function($s) { $s })", ['B', 'C', 'a']),
+        ("sort(('B', 'a', 'C'))", ['B', 'C', 'a']), ("sort((3, 1, 2), (), function($x) { -$x })", [3, 2, 1]),
+        # partial application and the original function item are independent
+        ('let $f := function($a, $b) { $a - $b }, $g := $f(?, 1) return ($f(10, 3), $g(10), function-arity($f), function-arity($g))', [7, 9, 2, 1]),
+        ('let $f := substring#3, $g := $f(?, 2, ?) return ($f("hello", 1, 2), $g("hello", 3), function-arity($f))', ['he', 'ell', 3]),
+        ('let $f := concat#3, $g := $f("a", ?, "c") return ($g("b"), $f("x", "y", "z"), $g("q"))', ['abc', 'xyz', 'aqc']),
+    ]
     for expr, want in progs:
         check(expr, want, ('closure', expr[:25]))
+    # a named function reference captures the focus where it is created
+    import xml.etree.ElementTree as ET
+    from elementpath import XPathContext
+    root = ET.XML('<root><a>x</a><b>yy</b></root>')
+    for expr, want in (('let $f := /root/a/name#0 return /root/b/$f()', 'a'), ('let $f := /root/a/string#0 return /root/b/$f()', 'x'),
+                       ('let $f := /root/a/local-name#0 return (/root/b/$f(), /root/a/$f())', ['a', 'a']),
+                       ('let $f := /root/b/string-length#0 return /root/a/$f()', 2), ('/root/b/(let $f := name#0 return $f())', 'b')):
+        n += 1
+        seen.add(('focus', expr[:25]))
+        try:
+            got = P().parse(expr).evaluate(XPathContext(root=root))
+        except Exception as e:      # noqa
+            got = f'{type(e).__name__}: {e}'[:80]
+        if got != want and len(fails) < 40:
+            fails.append({'key': expr[:160], 'what': f'`{expr}` = {got!r}; a function reference keeps the focus of its creation: {want!r}', 'expr': expr, 'want': repr(want),
+                          'doc': '<root><a>x</a><b>yy</b></root>'})
     return {'evaluations': n, 'distinct': len(seen), 'failures': fails, 'n_failures': len(fails),
             'scope': 'all sequences of length <= 3 over {1,2,3} x {for-each (4 callees incl. a named reference), filter, '
                      'fold-left, fold-right, for-each-pair, sort (with a tying key: stability), array:for-each/filter}; apply arity; '
@@ -127,6 +162,13 @@ def bounded_hof(tier, seed):
 
 def _replay(f):
     from elementpath import select as ep_select
+    if f.get('doc'):
+        import xml.etree.ElementTree as ET
+        from elementpath import XPathContext
+        try:
+            return PARSERS['3.1']().parse(f['expr']).evaluate(XPathContext(root=ET.XML(f['doc']))) == eval(f['want'])
+        except Exception:      # noqa
+            return False
     got = run_native(lambda: ep_select(None, f['expr'], parser=PARSERS['3.1'], item=1))
     g = got[1] if got[0] == 'return' else None
     gl = g if isinstance(g, list) else [g]
